@@ -600,6 +600,15 @@ func (r *Resolver) groupLookup(ctx context.Context, rs *resolveState, req *dns.M
 	}
 	key := strconv.FormatUint(cache.Key(q), 10) + "|" + servers.Zone +
 		"|" + string(cd) + "|" + strconv.FormatUint(servers.Fingerprint(), 10)
+	// The leader's request is what goes on the wire, client subnet
+	// included (RFC 7871), and the authority tailors its answer to it.
+	// Callers forwarding different subnets (or none) must not share a
+	// lookup: a follower would be handed an answer made for another
+	// audience and its cache writer would file it under its own.
+	if subnet := forwardedSubnet(req); subnet != nil {
+		key += "|" + strconv.Itoa(int(subnet.Family)) + "/" +
+			strconv.Itoa(int(subnet.SourceNetmask)) + "/" + subnet.Address.String()
+	}
 
 	// The leader closure can outlive this caller: TimedDoChan returns on this
 	// caller's timeout/cancel while the shared generation remains registered
